@@ -208,4 +208,21 @@ CLAIMED = {
          "final outcome is compared (the split is the kernel's; theorem C02_writeall_outcome_independent_of_split). "
          "Readiness/dispatch, cancel and close are C01's model; TCP itself is not modelled."),
    technique="Coq proof (stream invariant by induction over histories, all segmentations as state); differential correspondence on adapter and real TCP + extracted stream oracle"),
+ "C05": dict(
+   text=("Coq theorems (6, closed) about a transition system for Post/dispatch (mutex, eventfd counter, atomic pending counter, "
+         "any number of posting goroutines, handlers that themselves post), one transition per statement touching shared "
+         "state, a schedule being an arbitrary list of goroutine choices - so the theorems hold for ALL interleavings: "
+         "invariant (FIFO: appended = run ++ batch ++ queue, nothing lost or twice; Pending() exact; one mutex holder; no lost "
+         "wake-up: something queued implies eventfd > 0 or a poster between append and signal or the loop between drain and "
+         "swap); per-goroutine posting order; deadlock freedom / progress in every reachable state with work left; at "
+         "completion every handler ran exactly once in order and Pending() = 0; and the pre-repair structure (handlers run "
+         "under the mutex) is REFUTED by a reachable deadlock. The implementation is compared with the system under "
+         "script-dictated schedules (posts from the loop goroutine and 6 others, nesting depth 4, fan-out 3) on a dedicated "
+         "loop goroutine with a deadlock watchdog, and concurrent phases (1-8 goroutines x 50-400 handlers x 0-2 nested posts "
+         "racing polls and timer re-arms) are judged for exactly-once, loop-goroutine identity, order and exact counters; "
+         "the thorough tier repeats them under the Go race detector."),
+   note=("Trusted: Coq kernel, extraction, harness. Abstraction: each statement is atomic (justified by the mutex and sync/atomic "
+         "in the repaired code; the race-detector run is a test of that, not a proof); other descriptors' readiness is C01's "
+         "subject; the Go scheduler and memory model are not modelled."),
+   technique="Coq proof (inductive invariant + progress over a labelled transition system, all interleavings); schedule-driven correspondence + concurrent oracle + race detector (thorough)"),
 }
